@@ -31,6 +31,11 @@ def replay(job):
         # a pattern listed twice for one file: repeated as it stands, or {version} next to the version pattern written out (the same search after normalisation)
         spelled = RAWS[0].replace("{version}", vp)
         entries = [(key, list(raws) + [raws[0] if (seed // 7 + q) % 2 or raws[0] != RAWS[0] else spelled]) for q, (key, raws) in enumerate(entries)]
+    bare_extra = seed % 7 == 5 and not partial_last and not (seed % 5 == 2 and n >= 2)
+    if bare_extra:
+        # a bare {version} as a further pattern of every file (with an occurrence of its own on a "plain ..." line): the text of a general pattern is part of
+        # the text of the specific ones - each pattern still has to be found on its own
+        entries = [(key, list(raws) + ["{version}"]) for key, raws in entries]
     cfg_pos = rng.randrange(0, n + 1)
     fault = case["fault"]
     with drive.scratch_dir("c06") as d:
@@ -57,6 +62,8 @@ def replay(job):
                 else:
                     # a matching pattern may occur on several lines (what counts is that every PATTERN is found, not how many matches there are)
                     lines += [["ver=" + old, "pep=" + pep, "rel <%s>" % old][j]] * rng.choice([1, 1, 2, 3])
+            if bare_extra:
+                lines.append("plain " + old)
             proj.write(name, "\n".join(lines) + "\n")
             if fault["kind"] == "nomatch" and fault["k"] == k + 1 and seed % 6 == 4:
                 proj.write(name, "")            # the file is there but empty (zero bytes): none of its patterns has a match
